@@ -21,9 +21,19 @@ struct Case {
 
 const LOCALES: &[&str] = &["de_de", "de_at", "pt_br", "en_us", "en_gb", "zz", "", "zh_hant_tw", "fr", "de", "x_y_z_w"];
 
-fn table(rng: &mut Rng) -> (String, Vec<(String, Vec<(String, String)>)>) {
+/// Java style: language lower case, every later part upper case ("pt_BR"); the table and the client
+/// of one scenario always use the same style, so no two spellings differ only in case.
+fn styled(locale: &str, upper: bool) -> String {
+    if !upper {
+        return locale.to_string();
+    }
+    locale.split('_').enumerate().map(|(i, p)| if i == 0 { p.to_string() } else { p.to_uppercase() }).collect::<Vec<_>>().join("_")
+}
+
+fn table(rng: &mut Rng, upper: bool) -> (String, Vec<(String, Vec<(String, String)>)>) {
     // every locale gets a distinct message so that a wrong fall-back is visible
     let pool = ["de_de", "de", "pt", "pt_br", "en", "en_us", "zh", "zh_hant", "zh_hant_tw", "fr", "x", "x_y", "x_y_z"];
+    let pool: Vec<String> = pool.iter().map(|l| styled(l, upper)).collect();
     let mut messages = vec![];
     for loc in pool {
         if rng.chance(1, 2) {
@@ -37,7 +47,7 @@ fn table(rng: &mut Rng) -> (String, Vec<(String, Vec<(String, String)>)>) {
             messages.push((loc.to_string(), msgs));
         }
     }
-    let default = rng.pick(&["en_us", "en", "de_de", "fr_fr"]).to_string();
+    let default = styled(*rng.pick(&["en_us", "en", "de_de", "fr_fr"]), upper);
     (default, messages)
 }
 
@@ -106,13 +116,14 @@ fn generate(cli: &Cli) -> Vec<Case> {
             5 | 6 => (StrategyScript::Fixed(None), "none"),
             _ => (StrategyScript::Err, "error"),
         };
-        let locale = rng.pick(LOCALES).to_string();
+        let upper = rng.chance(1, 3);
+        let locale = styled(*rng.pick(LOCALES), upper);
         let (localize, lname) = match rng.below(3) {
             0 => (LocalizeScript::Echo { as_object: true }, "echo-object"),
             1 => (LocalizeScript::Echo { as_object: false }, "echo-plain"),
             _ => {
-                let (default_locale, messages) = table(&mut rng);
-                (LocalizeScript::Table { default_locale, messages }, "table")
+                let (default_locale, messages) = table(&mut rng, upper);
+                (LocalizeScript::Table { default_locale, messages }, if upper { "table-java-style" } else { "table" })
             }
         };
         let claimed = mk::ident(&mut rng, "claimed");
@@ -280,7 +291,7 @@ pub fn run_prop(cli: &Cli) -> i32 {
         "exploration",
         "random routing scenarios: 0-6 discovered targets (IPv4/IPv6/v4-mapped, ports 0/1/25565/65535, duplicates, metadata) × scripted filter {identity, subset, reorder, empty, replaced list, error} × scripted strategy {element k, target not in the list, none, error} × discovery error × localization {echo of the question asked, random tables through the repository's FixedLocalizationAdapter with an independent fall-back oracle} × 11 client locales; distinct = combination of those classes",
     );
-    report.assume("client locales are generated in lower case only (the statement does not say whether locale matching is case sensitive)");
+    report.assume("within one scenario the localization table and the client use the same spelling style (all lower case, or Java style pt_BR), so no two locales differ only in case: the statement does not say whether matching is case sensitive");
     let cases = generate(cli);
     let results = par_map(cases, cli.threads(), |_, case| {
         let run = run(&case.sc);
